@@ -5,6 +5,7 @@ from __future__ import annotations
 import ast
 
 from ..interp import cval, has_const
+from ..model_numpy import is_zero_fill
 from ..source import norm_text
 from .common import calls_in, walk_no_nested
 from .formula import check_degree, check_label, label_obligations, match_mono, no_scale_dependent_ops
@@ -70,6 +71,7 @@ def check(ctx):
         label_obligations(ctx, 'R2', it, under(fi.qualname))
     check_com(ctx)
     check_std(ctx)
+    check_speed(ctx)
 
 
 def scope_of(helpers):
@@ -84,6 +86,52 @@ def scope_of(helpers):
         return False
     f.wants_event = True
     return f
+
+
+def check_speed(ctx):
+    """R5: the per-frame increments telescope to the final distance from the base position only when the difference along the
+    frame axis is first order and is started from the constant 0 (the distance of the base position from itself)."""
+    ctx.doc('R5', 'speed is the first-order difference of the distances from the base position along the frame axis started '
+                  'from the constant 0, so the increments (and the amplitudes that partition them) sum to the final distance')
+    ctx.floor('R5', 1)
+    fi = ctx.fn(f'{TM}.speed')
+    res = ctx.entry(fi.qualname).result
+    if res is None or res.diff_of is None or res.diff_kw is None:
+        ctx.ob('R5', fi, 'return value', None, 'the increments are not formed by a difference the analysis reads')
+        return
+    kw = res.diff_kw
+    problems = []
+    unknown = []
+    src = res.diff_of
+    if src.geo != ('DIST',):
+        unknown.append(f'differenced quantity is {geo_text(src.geo)}, not the distance from the base position')
+    n, axis, pre, app = kw.get('n'), kw.get('axis'), kw.get('prepend'), kw.get('append')
+    if n is not None:
+        if not has_const(n):
+            unknown.append('order of the difference not a constant')
+        elif cval(n) != 1:
+            problems.append(f'difference of order {cval(n)!r}: the increments no longer sum to the final distance')
+    if axis is not None:
+        if not has_const(axis):
+            unknown.append('axis of the difference not a constant')
+        elif cval(axis) not in (-1, 1):
+            problems.append(f'difference along axis {cval(axis)!r} (atoms) instead of the frame axis')
+    if app is not None:
+        problems.append('a value is appended before differencing: the increments sum to that value minus the first distance')
+    if pre is None:
+        problems.append('no starting value is prepended: the increments sum to the final minus the first stored distance')
+    elif is_zero_fill(pre):
+        pass
+    elif has_const(pre):
+        problems.append(f'the difference is started from {cval(pre)!r} instead of 0')
+    elif pre.geo is not None:
+        problems.append(f'the difference is started from a data value ({geo_text(pre.geo)}) instead of the constant 0: the '
+                        'increments sum to the final distance minus that value')
+    else:
+        unknown.append('starting value of the difference not understood')
+    verdict = False if problems else (None if unknown else True)
+    ctx.ob('R5', fi, 'return value', verdict, '; '.join(problems + unknown) if (problems or unknown) else
+           'np.diff(distances from base position, prepend=0) along the frame axis: increments telescope to the final distance')
 
 
 def check_com(ctx):
